@@ -226,6 +226,17 @@ PROPS["C11"] = {
               U("TestVerif_C11_Attest", ALPH, R(3000), R(30000, shards=16, timeout=900))],
 }
 
+PROPS["C10"] = {
+    "rule": "the real Watcher.Run (BSC-like: latest blocks, consistency level = confirmations; Ethereum-like: finalized blocks) under a supervisor against a simulated EVM node "
+            "(go-ethereum rpc.Server on a unix socket) stepped one operation at a time: logs from the core contract / another contract / another topic (also mixed in one "
+            "transaction), consistency level 0..255, head advancing by 1..200, reorgs (block replaced, receipt gone, status 0, re-mined later), transient faults on receipt and "
+            "head lookups, re-observation requests; closing jump of maxCL+2 blocks; non-trivial = a reorg or a head jump >= 10 and at least one forwarded message",
+    "assumptions": ["safety is judged against the server-side response log (last receipt answer and highest head served before the message arrived)",
+                    "exactly-once is judged only for cases without re-observation requests and without watcher restarts; a message may be absent only if the node's last answer for its receipt was an error",
+                    "a step that does not settle within 3 s makes the case inconclusive", "faults are confined to receipt lookups and fewer than three consecutive head polls (more ends Run by design)"],
+    "units": [U("TestVerif_C10_Watcher", "./pkg/ethereum", R(300, shards=8, timeout=900, shrinktime="60s"), R(4000, shards=16, timeout=1500, shrinktime="120s"), replay_tries=3)],
+}
+
 def setup():
     """MANIFEST.setup_cmd: create stubs and warm the build cache for every harness binary."""
     work = os.path.join(vdriver.WORKROOT, "setup-%d" % os.getpid())
